@@ -230,6 +230,10 @@ var hcCodes = []int{200, 200, 200, 204, 204, 500, 0, 0, 404, 201}
 
 // families: q = mixed workloads; closepend = Close with 0-3 replies pending (held and/or still inside Do)
 func runHcScenario(t *testing.T, fam string, seed uint64, idx int, out *bufio.Writer) {
+	if fam == "hc:bridge" {
+		runHcBridge(t, fam, seed, idx, out)
+		return
+	}
 	g := newRng(newRng(seed*1000003 + uint64(idx)).next()) // hashed: consecutive seeds give shifted streams otherwise
 	synctest.Test(t, func(t *testing.T) {
 		r := &hcRun{log: &logger{out: out}, gates: map[int]chan hcResult{}}
